@@ -1,0 +1,11 @@
+//go:build verif
+
+package decrypt
+
+// Machine-checked contracts for /verif (govc). Comment-only: compiled only with -tags verif, adds no code.
+
+// C10: decrypting arbitrary file content fails with an error or returns data; it never slices outside the
+// decoded buffer.
+
+//@ func Decrypt
+//@   property C10
